@@ -574,3 +574,31 @@ func verifLatin1(s string) []byte {
 	}
 	return out
 }
+
+// Verif_C10_object_keys: the per-object key of revisions 2-4 for an
+// arbitrary reference (object number and generation are SMT variables; MD5
+// is executed symbolically on both sides) equals the key of Algorithm 1.
+func Verif_C10_object_keys() {
+	num := verifrt.Uint32("num")
+	gen := verifrt.Uint16("gen")
+	verifrt.Assume(num < 1<<24)
+	keyLen := []int{5, 16}[verifrt.Choice("keylen", 2)]
+	aes := verifrt.Choice("aes", 2) == 1
+	verifrt.Assume(!aes || keyLen == 16)
+	key := []byte("0123456789abcdef")[:keyLen]
+	R := 2
+	if keyLen > 5 {
+		R = 3 + verifrt.Choice("r4", 2)
+	}
+	sec := &stdSecHandler{R: R, key: key, keyBytes: keyLen}
+	cf := &cryptFilter{Cipher: cipherRC4, Length: 8 * keyLen}
+	if aes {
+		sec.R = 4
+		cf.Cipher = cipherAES
+	}
+	got, err := sec.KeyForRef(cf, NewReference(num, gen))
+	verifrt.Assert(err == nil, "KeyForRef succeeds")
+	want := (&refSec{R: sec.R, AES: aes}).objKey(key, num, gen)
+	verifrt.Cover("keys computed")
+	verifrt.Assert(verifrt.Equal(got, want), "per-object key is MD5(file key, 3 bytes of the number, 2 bytes of the generation[, sAlT])")
+}
